@@ -58,9 +58,9 @@ impl Simulator for EnvSimDriver {
 
     fn runs(&self, thorough: bool) -> u64 {
         if thorough {
-            4_000_000
+            20_000_000
         } else {
-            150_000
+            1_000_000
         }
     }
 
